@@ -28,7 +28,7 @@ import re
 import subprocess
 import time
 
-from rustscan import RustFile, LostAnchor, find_loops, mask_source, match_brace, find_body_open
+from rustscan import RustFile, LostAnchor, find_loops, mask_source, match_brace, find_body_open, find_fn_body_open
 
 X1_ATTR = re.compile(r"^\s*#\[(inline|allow|derive|doc|must_use|cfg_attr\(feature|prototk|deprecated)[^\n]*\]\s*$")
 X3_COUNTER = re.compile(r"^\s*[A-Z][A-Z0-9_]*\.(click\(\)|count\([^;]*\));\s*$")
@@ -411,7 +411,7 @@ def fn_ranges(path: str):
             pc = match_brace(mask, p)
         except LostAnchor:
             continue
-        k = find_body_open(mask, pc + 1)
+        k = find_fn_body_open(mask, pc + 1)
         if k < 0 or mask[k] == ";":
             continue
         try:
